@@ -208,6 +208,112 @@ def explore_twins(task):
     return C.rec
 
 
+# ------------------------------------------------------------------------------------------------
+# handcrafted scenarios around the "still initialising" licence and class-wide do_not_copy
+# ------------------------------------------------------------------------------------------------
+SCEN_SRC = '''
+KEEP = []
+
+@spec_class(frozen=True)
+class CopyInPostInit:
+    x: int = 1
+    xs: List[int] = [1]
+    def __post_init__(self):
+        KEEP.append(self.with_x(5))          # a copy taken while the instance is still being initialised
+        KEEP.append(copy.deepcopy(self))
+
+@spec_class(frozen=True)
+class EscapesFailedInit:
+    x: int = 1
+    xs: List[int] = [1]
+    def __post_init__(self):
+        KEEP.append(self)                     # the instance escapes ...
+        if self.x == 13:
+            raise RuntimeError("constructor fails")   # ... from a constructor that then fails
+
+@spec_class(frozen=True, do_not_copy=True)
+class FrozenNoCopy:
+    x: int = 1
+    xs: List[int] = [1]
+'''
+
+
+def scenario_targets(name):
+    """-> list of (label, frozen instance) that must refuse every change"""
+    ns = {"__name__": "verif_c07_scen", "copy": copy}
+    exec(compile(G.PRELUDE, "<c07-prelude>", "exec", dont_inherit=True), ns)
+    exec(compile(SCEN_SRC, "<c07-scenarios>", "exec", dont_inherit=True), ns)
+    if name == "copy_in_post_init":
+        ns["CopyInPostInit"]()
+        return [("with_x copy taken in __post_init__", ns["KEEP"][0]), ("deepcopy taken in __post_init__", ns["KEEP"][1])]
+    if name == "escapes_failed_init":
+        try:
+            ns["EscapesFailedInit"](x=13)
+        except RuntimeError:
+            pass
+        return [("instance that escaped a failed constructor", ns["KEEP"][0])]
+    if name == "frozen_do_not_copy":
+        return [("instance of a frozen do_not_copy=True class", ns["FrozenNoCopy"](x=2, xs=[5]))]
+    raise ValueError(name)
+
+
+SCEN_OPS = {
+    "assign": lambda o: setattr(o, "x", 9),
+    "delete": lambda o: delattr(o, "x"),
+    "with_inplace": lambda o: o.with_x(9, _inplace=True),
+    "with_item_inplace": lambda o: o.with_x_item(7, _inplace=True) if hasattr(o, "with_x_item") else o.with_xs([7], _inplace=True),
+    "update_inplace": lambda o: o.update(x=9, _inplace=True),
+    "reset_inplace": lambda o: o.reset_x(_inplace=True) if o.x != 1 else o.with_x(3, _inplace=True),
+    "with_copy": lambda o: o.with_x(9),
+    "with_list_copy": lambda o: o.with_xs([7]),
+    "transform_copy": lambda o: o.transform_x(lambda v: v + 1),
+    "reset_copy": lambda o: o.reset(),
+    "reset_attr_copy": lambda o: o.reset_x() if o.x != 1 else o.with_x(3),
+    "update_copy": lambda o: o.update(x=9),
+    "transform_top_copy": lambda o: o.transform(x=lambda v: v + 1),
+    "update_list_copy": lambda o: o.update(xs=[8]),
+}
+
+
+def scenario_case(name, opname):
+    probs = []
+    for label, inst in scenario_targets(name):
+        before = snap.canon([inst])
+        try:
+            SCEN_OPS[opname](inst)
+            raised = None
+        except Exception as e:
+            raised = type(e).__name__
+        if snap.canon([inst]) != before:
+            probs.append(f"{label}: changed by {opname} ({'raised ' + raised if raised else 'returned'})")
+        elif "inplace" in opname or opname in ("assign", "delete"):
+            if raised != "FrozenInstanceError":
+                probs.append(f"{label}: {opname} {'raised ' + raised if raised else 'was accepted'} instead of FrozenInstanceError")
+    return probs
+
+
+def scenarios_worker(task):
+    C = Counter()
+    for name in ("copy_in_post_init", "escapes_failed_init", "frozen_do_not_copy"):
+        for opname in SCEN_OPS:
+            probs = scenario_case(name, opname)
+            C.inc("states")
+            C.inc("transitions")
+            C.inc("evaluations")
+            case = {"part": "scenario", "scenario": name, "op": opname}
+            if probs:
+                C.viol(violation(PROP, {"part": "scenario", "scenario": name, "op": opname, "kind": "frozen_instance_not_protected"}, {"problems": probs[:3]}, case))
+            else:
+                C.inc("traces_validated_against_impl")
+                C.nontrivial((name, opname))
+    C.sample({"part": "scenario", "scenarios": 3, "ops": list(SCEN_OPS)})
+    return C.rec
+
+
+def dispatch(task):
+    return scenarios_worker(task) if task.get("part") == "scenario" else explore_twins(task)
+
+
 def frozen_instances(roots):
     out, seen_ids, stack = [], set(), list(roots)
     while stack:
@@ -234,6 +340,10 @@ def seen_key_of(seen, hist):
 
 
 def run_case(case):
+    if case.get("part") == "scenario":
+        probs = scenario_case(case["scenario"], case["op"])
+        return [violation(PROP, {"part": "scenario", "scenario": case["scenario"], "op": case["op"], "kind": "frozen_instance_not_protected"},
+                          {"problems": probs[:3]}, case)] if probs else []
     return replay_one(case["rec"], tuple(case["history"]), case["op"], case.get("recF"))
 
 
@@ -316,7 +426,8 @@ def main(run):
                           "recF": {"name": nm + dflt + "F", "attrs": [{"kind": "int", "default": "lit"}, {"kind": kF, "default": dflt}],
                                    "opts": {"leaf_is_frozen": True}},
                           "depth": d, "tier": run.tier, "max_states": 600})
-    for rec in pmap(explore_twins, tasks):
+    tasks.append({"part": "scenario"})
+    for rec in pmap(dispatch, tasks):
         run.merge(rec)
     run.add(rule=(
         "lock-step BFS over twins (frozen=True vs not) of every class of the family; histories = constructor + copy-on-write "
